@@ -3,6 +3,18 @@
 import glob, json, os, re, subprocess
 V = "/verif"
 MARK = "<!-- GENERATED TAIL (lib/mkdesign_tail.py) -->"
+def thorough_list():
+    out = []
+    try:
+        for l in open(V + "/work/thorough.log"):
+            m = re.match(r"(C\d+) thorough rc=0 wall=(\d+)s .*evaluations=(\d+)", l)
+            if m:
+                out.append("%s (%s evaluations, %s s)" % (m.group(1), m.group(3), m.group(2)))
+    except OSError:
+        pass
+    return ", ".join(out) if out else "(none recorded)"
+
+
 runs = {}
 for fn in sorted(glob.glob(V + "/work/soak/C*.quick.*.log")):
     m = re.match(r".*/(C\d+)\.quick\.(\d+)\.log", fn)
@@ -25,7 +37,10 @@ for cid in sorted(runs):
     lines.append("| %s | %s | %s | %s | %d | %d | %d |" % (cid, cell(1), cell(2), cell(3), base[1], base[2], base[5]))
 lines += ["", "`vp check` request 1 (fresh copy, setup + every quick check once, 71 min in total): all checks exited 0 except C16 and C65, both *inconclusive* (exit 2), "
           "not violations: C16's syscall log was ambiguous (a `close` interrupted by another thread's `openat` of the same descriptor number) — the replayer now applies an interrupted close at its entry and an ambiguous log is re-recorded; "
-          "C65 had not observed the schedule-dependent class `min_difficulty_return` — schedule-dependent classes are no longer REQUIRED (C65, C21).", ""]
+          "C65 had not observed the schedule-dependent class `min_difficulty_return` — schedule-dependent classes are no longer REQUIRED (C65, C21). "
+          "`vp check` request 2 (after these corrections and after the strengthening of C16/C19/C20/C28/C36/C38/C64, all 65 checks registered; 85 min): nothing needed attention.", "",
+          "Thorough tiers run to the end on the unchanged tree (VERIF_SEED=1, exit 0; evidence copies under `evidence_thorough/`): " + thorough_list() + ". "
+          "MANIFEST.json lists a `thorough_cmd` only for these; for the other checks the thorough configuration exists (`./vcheck <ID> --tier thorough`) but was only slice-tested and is not registered.", ""]
 lines += ["### 10.8 Independently seeded changes (kept under `/verif/seeded/<id>/`: patch.diff, demo.diff, meta.json)",
           "Produced by fresh sub-agents that were given only the property text and a scratch git worktree (nothing from /verif). Each change compiles, keeps every existing `test_bitcoin` suite green, "
           "and comes with a demonstration test that passes without and fails with the change; all of that was re-confirmed by the coordinator (`lib/seedeval.sh confirm`). "
